@@ -153,7 +153,8 @@ def main(argv=None):
         if args.replay:
             with open(args.replay) as f:
                 rp = json.load(f)
-            specs = [{"replay": rp.get("case"), "seed": rp.get("seed", 0), "tier": rp.get("tier", "quick")}]
+            specs = [{"replay": rp.get("case"), "seed": rp.get("seed", 0), "tier": rp.get("tier", "quick"),
+                      **({"tz": rp["case"]["tz"]} if isinstance(rp.get("case"), dict) and rp["case"].get("tz") else {})}]
         else:
             specs = mod.plan(args.tier, args.seed)
             if getattr(mod, "SUITE_UNDER_MONITORS", False) and (args.tier == "thorough" or os.environ.get("VERIF_SUITE")):
@@ -207,7 +208,7 @@ def main(argv=None):
                 todo.append(v)
                 if len(todo) >= 8:
                     break
-            rspecs = [{"replay": v["case"], "seed": args.seed, "tier": args.tier} for v in todo]
+            rspecs = [{"replay": v["case"], "seed": args.seed, "tier": args.tier, **({"tz": v["case"]["tz"]} if isinstance(v.get("case"), dict) and v["case"].get("tz") else {})} for v in todo]
             rres = run_workers(pid, mod, rspecs, args.jobs, tmp, args.tier) if rspecs else []
             for v, (spec, dump, status, err) in zip(todo, rres):
                 again = [w for w in (dump or {}).get("violations", []) if w["sub"] == v["sub"]]
